@@ -294,7 +294,10 @@ def span_arithmetic(ctx, rule):
                     names.append(str(x[2]))
                     x = S.strip_refs(x[1])
                 return names[::-1]
-            adds.append((bi, st, fp(a), fp(b)))
+            fa, fb_ = fp(a), fp(b)
+            if fb_[-2:] == ["slice", "0"] and fa[-2:-1] == ["subslice"]:
+                fa, fb_ = fb_, fa            # `+` commutes
+            adds.append((bi, st, fa, fb_))
     starts = [x for x in adds if x[2][-2:] == ["slice", "0"] and x[3][-2:] == ["subslice", "0"]]
     ends = [x for x in adds if x[2][-2:] == ["slice", "0"] and x[3][-2:] == ["subslice", "1"]]
     key = "span-bounds"
